@@ -38,31 +38,31 @@ func goStr(e ast.Node) string {
 }
 
 type transSpec struct {
-	leanName string            // name of the generated definition
-	binders  string            // Lean binders of the definition
-	retType  string            // Lean result type
-	exprMap  map[string]string // printed Go expression -> Lean term (fields of the receiver / parameters)
-	state    []string          // tracked mutable variables (Go printed form), in order
-	stateLn  []string          // their Lean names
-	ret      func(vals []string, st []string) string // result term for `return vals...` with the current state
-	fallOff  func(st []string) string                 // result when the function body ends
-	panicVal string                                   // result of panic(...)
-	skipCall func(c *ast.CallExpr) bool               // statements to ignore (hooks, logging)
-	skipStmt func(st ast.Stmt) bool                   // whole statements left out of the translation (named in the spec)
-	evVar    string                                   // Lean name of the tracked event list (effects are appended to it)
-	effects  map[string]string                        // printed call -> event name
-	binds    map[string][][2]string                   // printed call on the right of `a, b := call` -> (Go name, Lean term)
-	wraps    map[string]func(tail string) string      // printed call statement -> the Lean term around the rest (a translated callee)
-	stateTy    []string          // Lean types of the tracked variables (needed for `for cond {}` loops, which become `let rec`)
-	mapDefault map[string]string // tracked Go maps (by Lean name): the value read for an absent key
-	litType    string            // Lean type of integer literals ("" = Nat)
-	loopFuel   string            // fuel of `for cond {}` loops (a Lean term over the tracked variables)
-	topCont    bool              // `continue` outside a translated loop ends the translated block
-	closeEv    bool              // close(ch) appends ch to the event list
-	labelExit  map[string]func(st []string) string // `break LABEL` / `continue LABEL`: the result of the translated block
-	selectBrk  func(st []string) string            // a plain `break` directly inside a select case: leaves the select only
-	join       bool              // the statements after an if become a shared local continuation (no duplication)
-	zero       map[string]string // Go type (printed) -> Lean zero value, for `var x T`
+	leanName   string                                  // name of the generated definition
+	binders    string                                  // Lean binders of the definition
+	retType    string                                  // Lean result type
+	exprMap    map[string]string                       // printed Go expression -> Lean term (fields of the receiver / parameters)
+	state      []string                                // tracked mutable variables (Go printed form), in order
+	stateLn    []string                                // their Lean names
+	ret        func(vals []string, st []string) string // result term for `return vals...` with the current state
+	fallOff    func(st []string) string                // result when the function body ends
+	panicVal   string                                  // result of panic(...)
+	skipCall   func(c *ast.CallExpr) bool              // statements to ignore (hooks, logging)
+	skipStmt   func(st ast.Stmt) bool                  // whole statements left out of the translation (named in the spec)
+	evVar      string                                  // Lean name of the tracked event list (effects are appended to it)
+	effects    map[string]string                       // printed call -> event name
+	binds      map[string][][2]string                  // printed call on the right of `a, b := call` -> (Go name, Lean term)
+	wraps      map[string]func(tail string) string     // printed call statement -> the Lean term around the rest (a translated callee)
+	stateTy    []string                                // Lean types of the tracked variables (needed for `for cond {}` loops, which become `let rec`)
+	mapDefault map[string]string                       // tracked Go maps (by Lean name): the value read for an absent key
+	litType    string                                  // Lean type of integer literals ("" = Nat)
+	loopFuel   string                                  // fuel of `for cond {}` loops (a Lean term over the tracked variables)
+	topCont    bool                                    // `continue` outside a translated loop ends the translated block
+	closeEv    bool                                    // close(ch) appends ch to the event list
+	labelExit  map[string]func(st []string) string     // `break LABEL` / `continue LABEL`: the result of the translated block
+	selectBrk  func(st []string) string                // a plain `break` directly inside a select case: leaves the select only
+	join       bool                                    // the statements after an if become a shared local continuation (no duplication)
+	zero       map[string]string                       // Go type (printed) -> Lean zero value, for `var x T`
 }
 
 type translator struct {
@@ -765,8 +765,8 @@ func genTxn(repo, out string) {
 			retType:  "E × List String",
 			exprMap:  with(map[string]string{"db.State() == StateClosed": "closed", "fn(txn)": "FN", "txn.Commit()": "COMMIT"}),
 			state:    []string{"ev"}, stateLn: []string{"ev"}, evVar: "ev",
-			effects:  map[string]string{"db.Begin(false)": "Begin false", "db.Begin(true)": "Begin true", "txn.Discard()": "Discard", "fn(txn)": "fn"},
-			binds:    map[string][][2]string{"db.Begin(false)": {{"txn", "()"}}, "db.Begin(true)": {{"txn", "()"}}, "fn(txn)": {{"err", "fnRes"}}},
+			effects: map[string]string{"db.Begin(false)": "Begin false", "db.Begin(true)": "Begin true", "txn.Discard()": "Discard", "fn(txn)": "fn"},
+			binds:   map[string][][2]string{"db.Begin(false)": {{"txn", "()"}}, "db.Begin(true)": {{"txn", "()"}}, "fn(txn)": {{"err", "fnRes"}}},
 			ret: func(vals []string, st []string) string {
 				switch vals[0] {
 				case "FN":
@@ -883,8 +883,8 @@ func genWM(repo, out string) {
 		mapDefault: map[string]string{"pending": "(0 : Int)", "waiters": "[]"},
 		loopFuel:   "timeStamps.length",
 		wraps: map[string]func(string) string{
-			"heap.Push(&timeStamps, ts)": func(tail string) string { return "(let timeStamps := heapPush ts timeStamps; " + tail + ")" },
-			"heap.Pop(&timeStamps)":      func(tail string) string { return "(let timeStamps := timeStamps.tail; " + tail + ")" },
+			"heap.Push(&timeStamps, ts)":   func(tail string) string { return "(let timeStamps := heapPush ts timeStamps; " + tail + ")" },
+			"heap.Pop(&timeStamps)":        func(tail string) string { return "(let timeStamps := timeStamps.tail; " + tail + ")" },
 			"w.doneUntil.Store(doneUntil)": func(tail string) string { return "(let du := doneUntil; " + tail + ")" },
 		},
 		ret:      func(vals []string, st []string) string { return "(du, timeStamps, pending, waiters, ev)" },
@@ -999,11 +999,11 @@ func genDB(repo, out string) {
 		exprMap: map[string]string{"db.immutables": "imms", "e.Value.(*memtable)": "e",
 			"types.IsSameKey(key, mtEntry.Key)": "(key.user == mtEntry.key.user)", "types.IsSameKey(key, imtEntry.Key)": "(key.user == imtEntry.key.user)",
 			"types.IsSameKey(key, sstEntry.Key)": "(key.user == sstEntry.key.user)",
-			"types.Value(mtEntry)": "(some mtEntry)", "types.Value(imtEntry)": "(some imtEntry)", "types.Value(sstEntry)": "(some sstEntry)"},
+			"types.Value(mtEntry)":               "(some mtEntry)", "types.Value(imtEntry)": "(some imtEntry)", "types.Value(sstEntry)": "(some sstEntry)"},
 		binds: map[string][][2]string{
-			"db.memtable.lowerBound(key)":       {{"mtEntry", "((lb mem key).getD " + dflt + ")"}, {"ok", "(lb mem key).isSome"}},
-			"imt.lowerBound(key)":               {{"imtEntry", "((lb imt key).getD " + dflt + ")"}, {"ok", "(lb imt key).isSome"}},
-			"db.manager.searchLowerBound(key)":  {{"sstEntry", "((slb key).getD " + dflt + ")"}, {"ok", "(slb key).isSome"}},
+			"db.memtable.lowerBound(key)":      {{"mtEntry", "((lb mem key).getD " + dflt + ")"}, {"ok", "(lb mem key).isSome"}},
+			"imt.lowerBound(key)":              {{"imtEntry", "((lb imt key).getD " + dflt + ")"}, {"ok", "(lb imt key).isSome"}},
+			"db.manager.searchLowerBound(key)": {{"sstEntry", "((slb key).getD " + dflt + ")"}, {"ok", "(slb key).isSome"}},
 		},
 		ret: func(vals []string, st []string) string {
 			if len(vals) == 2 {
@@ -1051,7 +1051,7 @@ func genDB(repo, out string) {
 			effects: map[string]string{"db.manager.flushToL0(imt.all())": "manager.flushToL0", "imt.wal.Delete()": "wal.Delete"},
 			binds:   map[string][][2]string{"db.manager.flushToL0(imt.all())": {{"err", "flushFails"}}, "imt.wal.Delete()": {{"err", "deleteFails"}}},
 			wraps: map[string]func(string) string{
-				"db.logger.Panicf(\"failed to flush immutable memtable: %v\", err)": func(string) string { return "none" },
+				"db.logger.Panicf(\"failed to flush immutable memtable: %v\", err)":  func(string) string { return "none" },
 				"db.logger.Panicf(\"failed to delete immutable wal file: %v\", err)": func(string) string { return "none" },
 			},
 			ret: func(vals []string, st []string) string { return "some ev" }, fallOff: func(st []string) string { return "some ev" }, panicVal: "none",
@@ -1151,7 +1151,7 @@ func genDB(repo, out string) {
 			retType:  "Option (Nat × List (String × Nat))",
 			exprMap:  map[string]string{"len(walFiles)": "walFiles.length", "entry.Version": "entry.2", "err != nil": "err"},
 			state:    []string{"walFiles", "maxVersion", "ev"}, stateLn: []string{"walFiles", "maxVersion", "ev"}, evVar: "ev",
-			zero:     map[string]string{"[]string": "walFilesIn", "int64": "0"},
+			zero: map[string]string{"[]string": "walFilesIn", "int64": "0"},
 			effects: map[string]string{"wal.Open(file)": "wal.Open|file", "l.Read()": "wal.Read|file", "mt.skiplist.Set(entry)": "skiplist.Set|entry.1",
 				"mt.wal.Write(entry)": "wal.Write|entry.1", "l.Delete()": "wal.Delete|file"},
 			binds: map[string][][2]string{"wal.Open(file)": {{"l", "()"}, {"err", "false"}},
@@ -1222,12 +1222,12 @@ func genLSM(repo, out string) {
 		binders:  "{T : Type} (mayContain : T → Key.Bytes → Bool) (idxLB : T → VK → Option Nat) (fetchLB : T → Nat → VK → Option E) (levels : List (List T)) (key : VK)",
 		retType:  "Option E",
 		exprMap: map[string]string{"lm.levels": "levels", "tables": "tables", "e.Value.(tableHandle)": "e",
-			"th.filter.Contains(types.ParseKey(key))": "(mayContain th key.user)",
-			"types.IsSameKey(key, entry.Key)":          "(key.user == entry.key.user)",
+			"th.filter.Contains(types.ParseKey(key))":   "(mayContain th key.user)",
+			"types.IsSameKey(key, entry.Key)":           "(key.user == entry.key.user)",
 			"types.CompareKeys(entry.Key, res.Key) < 0": "(vlt entry.key res.key)",
-			"types.Entry{}":                             dflt},
+			"types.Entry{}": dflt},
 		binds: map[string][][2]string{
-			"th.dataBlockIndex.LowerBound(key)": {{"dataBlockHandle", "((idxLB th key).getD 0)"}, {"ok", "(idxLB th key).isSome"}},
+			"th.dataBlockIndex.LowerBound(key)":                                     {{"dataBlockHandle", "((idxLB th key).getD 0)"}, {"ok", "(idxLB th key).isSome"}},
 			"lm.fetchAndSearchLowerBound(key, level, th.levelIdx, dataBlockHandle)": {{"entry", "((fetchLB th dataBlockHandle key).getD " + dflt + ")"}, {"ok", "(fetchLB th dataBlockHandle key).isSome"}},
 		},
 		state: []string{"res", "found"}, stateLn: []string{"res", "found"},
@@ -1325,7 +1325,7 @@ func genTable(repo, out string) {
 			leanName: "buildBlocks",
 			binders:  "{α : Type} (sz : α → Nat) (dataBlockSize : Nat) (entries : List α)",
 			retType:  "List (List α)",
-			exprMap: map[string]string{"len(entry.Key) + len(entry.Value) + 1": "(sz entry)", "data.Entries": "data", "data": "data", "Data{}": "[]"},
+			exprMap:  map[string]string{"len(entry.Key) + len(entry.Value) + 1": "(sz entry)", "data.Entries": "data", "data": "data", "Data{}": "[]"},
 			state:    []string{"dataBlocks", "currSize", "data.Entries"}, stateLn: []string{"dataBlocks", "currSize", "data"},
 			zero:     map[string]string{"[]Data": "[]", "int": "0", "Data": "[]"},
 			ret:      func(vals []string, st []string) string { return "dataBlocks" },
